@@ -262,7 +262,7 @@ def close_with_candidates(cx, A, B, tol, label, A_unrelaxed=None):
 
     saved = {k: cx.opts.get(k) for k in ('lattices', 'vc_timeout_ms')}
     cx.opts['lattices'] = ()
-    cx.opts['vc_timeout_ms'] = 3000
+    cx.opts['vc_timeout_ms'] = 12000
     try:
         cx.close(A, B, tol=tol, label=label)
         return
@@ -297,7 +297,7 @@ def close_with_candidates(cx, A, B, tol, label, A_unrelaxed=None):
 # one (sound weakening), and the relaxed VC is decided by z3 in linear arithmetic.
 # witness search for genuine violations: the "far" regimes exclude the pi/4 lattice points, so pi/6 and pi/12 lattices
 # come first; 4 s per query and 900 s per obligation bound the time spent on a failing path (only reached when the linear stage fails)
-SEARCH = {'lattices': (6, 12), 'vc_timeout_ms': 4000, 'max_seconds': 900}
+SEARCH = {'lattices': (6, 12), 'vc_timeout_ms': 20000, 'max_seconds': 900}
 EPS = 1e-12  # regimes overlap by EPS: comparisons of the code use float-rounded constants (1e-16 slivers)
 
 
